@@ -3,7 +3,10 @@
    the trusted pair and the pair being proven: the trusted pair is the SOURCE when the proven
    transaction is at or after it (then the proven pair becomes the new trusted state), the TARGET
    otherwise (pkg/client verifiedGet / VerifiedSet / VerifiedTxByID: `if state.TxId <= vTx`); in both
-   cases the new state is the call's target.
+   cases the new state is the call's target.  In `session` below the trusted pair of a call is, by
+   definition, the CLIENT'S state `st` (never a value taken from the response): a client that takes
+   e.g. the target hash from the response's TargetTxHeader instead of from its state is outside this
+   model — the harness (harness/c01/clientflow.go) detects it with responses from forked databases.
    Session consistency = any two pairs accepted along one session with the same transaction id
    carry the same Alh (hence, by alh_binding, the same header): no fork is ever accepted.
    No proofs in this file. *)
